@@ -1,7 +1,8 @@
 (* C04 - amino-acid annotation equals translation of the affected codon before and after.
    Only statements, closed by `exact`, and their assumptions. *)
 From VV Require Import Model.Base Model.Pattern Model.Seq Model.CodonTable Model.Transcript Model.Mutators
-  Spec.CodonSpec Proofs.CodonProofs Proofs.AnnotProofs Proofs.AnnotWalkProofs Generated.KernelsAnnot Proofs.KernelAnnotEquiv.
+  Spec.CodonSpec Proofs.CodonProofs Proofs.AnnotProofs Proofs.AnnotWalkProofs Generated.KernelsAnnot Proofs.KernelAnnotEquiv
+  Model.PyLoop Generated.KernelsExons Proofs.KernelExonsEquiv.
 
 (* SNV rows: the annotated codon is the triplet of the extended coding sequence (prefix + region + suffix) that
    holds the mutated base, ref_aa / alt_aa are its translations before and after the substitution *)
@@ -96,6 +97,20 @@ Theorem C04_codon_range_offset_matches_source : forall pos r co, 0 <= pos -> k_c
   co = pos mod 3 /\ rs r = pos - pos mod 3 /\ re r = pos - pos mod 3 + 2.
 Proof. exact k_codon_range_offset_spec. Qed.
 
+(* the positions that complete a codon across exon junctions (UIntRangeSortedList.get_before / get_after: while loops over as many
+   neighbouring exons as the extension needs - the three-exon codon of fix 0c26c85), translated from uint_range.py on every run, are the
+   model's for every transcript whose exons are non-empty ranges, assertion failures included *)
+Theorem C04_codon_completion_matches_source : forall exons i r n, valid_exons exons ->
+  k_exons_get_before exons i r n = get_before exons i r n /\ k_exons_get_after exons i r n = get_after exons i r n.
+Proof. intros exons i r n Hv. exact (conj (k_exons_get_before_eq exons i r n Hv) (k_exons_get_after_eq exons i r n Hv)). Qed.
+
+(* non-vacuity: a one-base exon in the middle - the two bases before position 20 of the third exon come from two different exons *)
+Example C04_codon_completion_example :
+  valid_exons [mkEx 1 3 0 0; mkEx 10 10 1 0; mkEx 20 25 2 1] /\
+  k_exons_get_before [mkEx 1 3 0 0; mkEx 10 10 1 0; mkEx 20 25 2 1] 2 (mkRange 20 22) 2 = Ok [3; 10] /\
+  k_exons_get_after [mkEx 1 3 0 0; mkEx 10 10 1 0; mkEx 20 25 2 1] 0 (mkRange 2 3) 2 = Ok [10; 20].
+Proof. split; [repeat constructor; vm_compute; discriminate|]. split; vm_compute; reflexivity. Qed.
+
 Print Assumptions C04_annot_snv_correct.
 Print Assumptions C04_annot_codon_correct.
 Print Assumptions C04_ext_positions_are_codon_walk.
@@ -106,3 +121,4 @@ Print Assumptions C04_mut_type_rule.
 Print Assumptions C04_noncoding_rows_unannotated.
 Print Assumptions C04_deletion_rows_unannotated.
 Print Assumptions C04_codon_range_offset_matches_source.
+Print Assumptions C04_codon_completion_matches_source.
